@@ -445,7 +445,9 @@ func (o *snapshotter) cleanupDirectories(ctx context.Context, cleanupCommitted b
 
 func (o *snapshotter) getCleanupDirectories(ctx context.Context, t storage.Transactor, cleanupCommitted bool) ([]string, error) {
 	ids, err := storage.IDMap(ctx)
-	if err != nil {
+	if err != nil && !errdefs.IsNotFound(err) {
+		// NotFound: the snapshots bucket does not exist yet (no snapshot was ever committed),
+		// so no directory under snapshots/ belongs to a snapshot.
 		return nil, err
 	}
 
@@ -474,7 +476,7 @@ func (o *snapshotter) getCleanupDirectories(ctx context.Context, t storage.Trans
 				}
 			}
 			return nil
-		}); err != nil {
+		}); err != nil && !errdefs.IsNotFound(err) {
 			return nil, err
 		}
 	}
